@@ -836,6 +836,34 @@ def finishText (t : Tokenizer) : Tokenizer :=
   if t.rawS < t.rawE then { t with dataE := t.rawE, token := .text }
   else { t with token := .error }
 
+/-- the body of the `'main` loop of `next` once `<` and a tag-opening byte `c` (letter, `/`, `!`, `?`)
+have been read: flush pending text, or read the tag / comment / declaration -/
+def dispatchTag (t2 : Tokenizer) (c : Nat) : Tokenizer :=
+  -- `let x = self.raw.end - "<a".len();`
+  if t2.rawE < htmlTagOpenLen then { t2 with panic := true }
+  else
+    let x := t2.rawE - htmlTagOpenLen
+    if t2.rawS < x then { t2 with rawE := x, dataE := x, token := .text }
+    else if isAlpha c then
+      let s := t2.readStartTag
+      { s.1 with token := s.2 }
+    else if c == 47 then
+      let r3 := t2.readByte
+      if r3.1.err then finishText r3.1
+      else if r3.2 == 62 then { r3.1 with token := .comment }
+      else if isAlpha r3.2 then
+        let t4 := r3.1.readTag false
+        if t4.err then { t4 with token := .error } else { t4 with token := .endTag }
+      else
+        let t4 := (r3.1.unread 1).readUntilCloseAngle
+        { t4 with token := .comment }
+    else if c == 33 then
+      let m := t2.readMarkupDeclaration
+      { m.1 with token := m.2 }
+    else
+      let t4 := (t2.unread 1).readUntilCloseAngle
+      { t4 with token := .comment }
+
 /-- the `'main: loop` of `next` -/
 def mainLoop (t : Tokenizer) : Tokenizer :=
   let r := t.readByte
@@ -844,35 +872,8 @@ def mainLoop (t : Tokenizer) : Tokenizer :=
   else
     let r2 := r.1.readByte
     if _h2 : r2.1.err then finishText r2.1
-    else
-      let c := r2.2
-      if !(isAlpha c || c == 47 || c == 33 || c == 63) then mainLoop (r2.1.unread 1)
-      else
-        let t2 := r2.1
-        -- `let x = self.raw.end - "<a".len();`
-        if t2.rawE < htmlTagOpenLen then { t2 with panic := true }
-        else
-          let x := t2.rawE - htmlTagOpenLen
-          if t2.rawS < x then { t2 with rawE := x, dataE := x, token := .text }
-          else if isAlpha c then
-            let s := t2.readStartTag
-            { s.1 with token := s.2 }
-          else if c == 47 then
-            let r3 := t2.readByte
-            if r3.1.err then finishText r3.1
-            else if r3.2 == 62 then { r3.1 with token := .comment }
-            else if isAlpha r3.2 then
-              let t4 := r3.1.readTag false
-              if t4.err then { t4 with token := .error } else { t4 with token := .endTag }
-            else
-              let t4 := (r3.1.unread 1).readUntilCloseAngle
-              { t4 with token := .comment }
-          else if c == 33 then
-            let m := t2.readMarkupDeclaration
-            { m.1 with token := m.2 }
-          else
-            let t4 := (t2.unread 1).readUntilCloseAngle
-            { t4 with token := .comment }
+    else if !(isAlpha r2.2 || r2.2 == 47 || r2.2 == 33 || r2.2 == 63) then mainLoop (r2.1.unread 1)
+    else dispatchTag r2.1 r2.2
 termination_by t.buf.size - t.rawE
 decreasing_by
   · exact readByte_decr t _h
@@ -882,10 +883,8 @@ decreasing_by
     have hur := unread_rawE t.readByte.1.readByte.1 1
     omega
 
-/-- `Tokenizer::next`.  (`Err(FromUtf8Error)` is the flag `utf8Err`; the returned token type is the
-field `token`.) -/
-def next (t : Tokenizer) : Tokenizer :=
-  let t := { t with rawS := t.rawE, dataS := t.rawE, dataE := t.rawE }
+/-- `Tokenizer::next` after the three span assignments at its top -/
+def nextGo (t : Tokenizer) : Tokenizer :=
   if t.err then { t with token := .error }
   else
     let cont (t : Tokenizer) : Tokenizer :=
@@ -899,6 +898,11 @@ def next (t : Tokenizer) : Tokenizer :=
       if t1.dataE > t1.dataS then { t1 with token := .text, convertNull := true }
       else cont t1
     else cont t
+
+/-- `Tokenizer::next`.  (`Err(FromUtf8Error)` is the flag `utf8Err`; the returned token type is the
+field `token`.) -/
+def next (t : Tokenizer) : Tokenizer :=
+  nextGo { t with rawS := t.rawE, dataS := t.rawE, dataE := t.rawE }
 
 /-! ### construction and accessors -/
 
